@@ -49,6 +49,8 @@ impl Ord for TimerEntry {
 
 thread_local! {
     static NOW_NS: Cell<u64> = const { Cell::new(0) };
+    /// wall clock minus simulated (monotonic) time: clock-step faults
+    static WALL_OFFSET_NS: Cell<i64> = const { Cell::new(0) };
     static STEP: Cell<u64> = const { Cell::new(0) };
     static TIMER_SEQ: Cell<u64> = const { Cell::new(0) };
     static TIMERS: RefCell<BinaryHeap<Reverse<TimerEntry>>> = RefCell::new(BinaryHeap::new());
@@ -153,7 +155,17 @@ pub fn now_ns() -> u64 {
 }
 /// Unix time in seconds (f64) of the simulated instant
 pub fn now_unix_f64() -> f64 {
-    EPOCH_S as f64 + now_ns() as f64 * 1e-9
+    EPOCH_S as f64 + (now_ns() as i128 + wall_offset_ns() as i128) as f64 * 1e-9
+}
+pub fn wall_offset_ns() -> i64 {
+    WALL_OFFSET_NS.with(|c| c.get())
+}
+/// Step the wall clock (what hooks H3/H5 show to the code under test): it now
+/// reads simulated time + `off`. Timers run on the monotonic simulated time and
+/// are not affected, as with a real clock step.
+pub fn set_wall_offset_ns(off: i64) {
+    WALL_OFFSET_NS.with(|c| c.set(off));
+    set_clock(now_ns());
 }
 pub fn unix_f64_of(ns: u64) -> f64 {
     EPOCH_S as f64 + ns as f64 * 1e-9
@@ -170,9 +182,8 @@ fn bump_step() -> u64 {
 }
 fn set_clock(ns: u64) {
     NOW_NS.with(|c| c.set(ns));
-    rs1090::decode::time::verif_set_now(Some(
-        EPOCH_S as u128 * 1_000_000_000 + ns as u128,
-    ));
+    let wall = EPOCH_S as i128 * 1_000_000_000 + ns as i128 + wall_offset_ns() as i128;
+    rs1090::decode::time::verif_set_now(Some(wall.max(0) as u128));
 }
 /// Reset every thread-local of the simulator; called at the start of a run.
 pub fn reset_world() {
@@ -180,6 +191,7 @@ pub fn reset_world() {
     TIMER_SEQ.with(|c| c.set(0));
     STEP.with(|c| c.set(0));
     LOG.with(|c| c.set(0xcbf2_9ce4_8422_2325));
+    WALL_OFFSET_NS.with(|c| c.set(0));
     set_clock(0);
 }
 /// Let the clock jump (clock-skew/jump faults for code that reads H3/H5).
